@@ -95,7 +95,8 @@ def check_no_key_removal(analysis: Analysis, res: RuleResult, rule: str) -> None
                     if isinstance(t, ast.Attribute) and t.attr in STATE_MAPS:
                         fn = func_of_node(analysis, mod, node)
                         short = fn.split(".")[-1]
-                        if short not in ("__init__", "__setstate__"):
+                        ctor_like = short in ("__init__", "__setstate__") or owned_by(analysis, fn, {q for q in analysis.p.funcs if q.split(".")[-1] in ("__init__", "__setstate__")})
+                        if not ctor_like:
                             bad = f"{unparse(t)} reassigned"
                         else:
                             count += 1
@@ -164,3 +165,33 @@ def calls_in(node: ast.AST, name: Optional[str] = None) -> Iterable[ast.Call]:
                 f = n.func
                 if (isinstance(f, ast.Attribute) and f.attr == name) or (isinstance(f, ast.Name) and f.id == name):
                     yield n
+
+
+def callers_of(analysis: Analysis, qual: str) -> List[str]:
+    """Functions of the core modules that syntactically call `qual` (by bare or attribute name)."""
+    name = qual.split(":")[1].split(".")[-1]
+    out = []
+    for mod in core_modules(analysis):
+        for node in ast.walk(mod.tree):
+            if isinstance(node, ast.Call):
+                f = node.func
+                if (isinstance(f, ast.Name) and f.id == name) or (isinstance(f, ast.Attribute) and f.attr == name):
+                    out.append(func_of_node(analysis, mod, node))
+    return out
+
+
+def owned_by(analysis: Analysis, qual: str, allowed, _depth: int = 0) -> bool:
+    """Is `qual` one of `allowed`, or a private helper all of whose callers are (transitively) owned by `allowed`?
+
+    Lets a who-may-call rule survive "extract helper" refactorings: a new private function that is
+    only reachable from the allowed functions is as good as its callers.
+    """
+    if qual in allowed:
+        return True
+    if _depth > 4:
+        return False
+    short = qual.split(":")[1].split(".")[-1]
+    if not short.startswith("_") or short.startswith("__"):
+        return False
+    cs = [c for c in callers_of(analysis, qual) if c != qual]
+    return bool(cs) and all(owned_by(analysis, c, allowed, _depth + 1) for c in cs)
